@@ -380,7 +380,9 @@ func TestPropMatrixInterpolation(t *testing.T) {
 			cls = append(cls, "token-shaped-value")
 		}
 		rec.Case(ev.Hash(show()), nt, cls...)
-		rec.MaybeSample(nt, func() any { return map[string]any{"perm": perm, "command": gtStr(before, "command"), "label": gtStr(before, "label")} })
+		rec.MaybeSample(nt, func() any {
+			return map[string]any{"perm": perm, "command": gtStr(before, "command"), "label": gtStr(before, "label")}
+		})
 	})
 }
 
@@ -396,16 +398,16 @@ func TestScannerExamples(t *testing.T) {
 	ev.SkipIfReplayingOther(t)
 	perm := map[string]string{"": "V", "a": "A", "a.": "DOT"}
 	for in, want := range map[string]string{
-		"{{matrix}}":         "V",
-		"{{ matrix }}":       "V",
-		"{{\tmatrix.a\n}}":   "A",
-		"{{matrix.a.}}":      "DOT",
-		"{{matrix.}}":        "{{matrix.}}",
-		"{matrix}":           "{matrix}",
-		"{{{{matrix}}":       "{{V",
-		"{{matrix}}}}":       "V}}",
-		"{{matrixx}}":        "{{matrixx}}",
-		"{{ matrix .a}}":     "{{ matrix .a}}",
+		"{{matrix}}":               "V",
+		"{{ matrix }}":             "V",
+		"{{\tmatrix.a\n}}":         "A",
+		"{{matrix.a.}}":            "DOT",
+		"{{matrix.}}":              "{{matrix.}}",
+		"{matrix}":                 "{matrix}",
+		"{{{{matrix}}":             "{{V",
+		"{{matrix}}}}":             "V}}",
+		"{{matrixx}}":              "{{matrixx}}",
+		"{{ matrix .a}}":           "{{ matrix .a}}",
 		"x{{matrix}}y{{matrix.a}}": "xVyA",
 	} {
 		if got, unk, _ := refReplace(in, perm); got != want || len(unk) != 0 {
